@@ -15,7 +15,7 @@
         or replaced boxes (inline-blocks being atomic).
    Outside it the Go code itself is not defined: drawInlineLevel panics on
    "unexpected box" (draw.go 1545); the model reproduces that Panic.         *)
-From Verif Require Import Base.GoSem Base.SortStable Draw.Stacking Draw.PaintSpec Draw.StackingProofs Draw.StackingOnce Draw.StackingSingular.
+From Verif Require Import Base.GoSem Base.SortStable Draw.Stacking Draw.PaintSpec Draw.StackingProofs Draw.StackingOnce Draw.StackingSingular Draw.StackingMore Draw.StackingOrder.
 From Coq Require Import List ZArith NArith Bool Sorted Permutation.
 Import ListNotations.
 
@@ -350,3 +350,40 @@ Example C16_example_table_cells :
   = Ok [Content 32; Content 52; Content 62]%N /\
   paint (from_box ex_table_tree) = Ok (spec_paint impl_forms_ctx css_level (isort (fun b => css_level (binfo_of b))) ex_table_tree).
 Proof. vm_compute. repeat split; reflexivity. Qed.
+
+(* ---- z-index applies only to positioned boxes (stacking.go 63-71, 119-122) ---- *)
+
+Theorem C16_nonpositioned_level_zero : forall i kids cc blocks floats bac,
+  bpos i = false -> ctx_z (new_context i kids cc blocks floats bac) = 0%Z.
+Proof. exact nonpositioned_level_zero. Qed.
+Print Assumptions C16_nonpositioned_level_zero.
+
+Theorem C16_positioned_level : forall i k kids cc blocks floats bac,
+  bpos i = true -> bz i = Some k -> ctx_z (new_context i kids cc blocks floats bac) = k.
+Proof. exact positioned_level. Qed.
+Print Assumptions C16_positioned_level.
+
+Theorem C16_nonpositioned_creates_ctx_z_irrelevant : forall i z,
+  bpos i = false -> creates_ctx (with_z i z) = creates_ctx i.
+Proof. exact nonpositioned_creates_ctx_z_irrelevant. Qed.
+Print Assumptions C16_nonpositioned_creates_ctx_z_irrelevant.
+
+Theorem C16_nonpositioned_new_context_z_irrelevant : forall i z kids cc blocks floats bac,
+  bpos i = false ->
+  new_context (with_z i z) kids cc blocks floats bac =
+  match new_context i kids cc blocks floats bac with
+  | Ctx _ k lv neg zero pos bl fl ba => Ctx (with_z i z) k lv neg zero pos bl fl ba
+  end.
+Proof. exact nonpositioned_new_context_z_irrelevant. Qed.
+Print Assumptions C16_nonpositioned_new_context_z_irrelevant.
+
+(* ---- z-index ordering of the child contexts of one stacking context ----
+   the child contexts in the order they are painted (negative, zero, positive:
+   Appendix E steps 3, 8, 9) are exactly the stable sort by z-index of the child
+   contexts in document order: non-decreasing z-index, ties in document order *)
+Theorem C16_children_painted_in_z_order : forall i kids cc blocks floats bac,
+  match new_context i kids cc blocks floats bac with
+  | Ctx _ _ _ neg zero pos _ _ _ => neg ++ zero ++ pos = isort ctx_z cc
+  end.
+Proof. exact new_context_children_order. Qed.
+Print Assumptions C16_children_painted_in_z_order.
